@@ -1,13 +1,15 @@
 """Helpers shared by the property checks."""
 from __future__ import annotations
 
+import os
+
 import ast
 import glob
 from pathlib import Path
 
 from .. import e1, gen, harness, witness
 
-REPO = Path("/repo")
+REPO = Path(os.environ.get("VERIF_REPO", "/repo"))
 
 
 def repo_sources():
